@@ -12,6 +12,26 @@ _Q = {
     "fref_ops": 70000, "fref_null_targets": 7000,
     "var_ops": 140000, "var_get_throws": 14000, "var_get_returns": 4500, "var_visits": 16000,
     "var_compare_same_index": 15000, "var_tracked_alternatives": 7500,
+    # variant, exception part (operations with a throwing copy / move armed in lock-step)
+    "var_throw_ops": 13000, "var_throw_unarmed_ops": 4200,
+    "var_throw_judged_old_value_kept": 4600, "var_throw_judged_valueless": 1700, "var_throw_dontcare": 3800,
+    "var_throw_copy_assign_copy_throws_move_noexcept_different_alternative": 1100,
+    "var_throw_copy_assign_copy_throws_move_noexcept_same_alternative": 590,
+    "var_throw_copy_assign_copy_throws_move_throws_different_alternative": 1100,
+    "var_throw_copy_assign_copy_throws_move_throws_same_alternative": 590,
+    "var_throw_convert_copy_throws_move_noexcept_different_alternative": 680,
+    "var_throw_convert_copy_throws_move_noexcept_same_alternative": 340,
+    "var_throw_convert_copy_throws_move_throws_different_alternative": 680,
+    "var_throw_convert_copy_throws_move_throws_same_alternative": 340,
+    "var_throw_emplace_copy_throws_move_noexcept_different_alternative": 590,
+    "var_throw_emplace_copy_throws_move_noexcept_same_alternative": 290,
+    "var_throw_emplace_copy_throws_move_throws_different_alternative": 590,
+    "var_throw_emplace_copy_throws_move_throws_same_alternative": 290,
+    "var_throw_move_assign_move_throws_different_alternative": 1700,
+    "var_throw_move_assign_move_throws_same_alternative": 850,
+    "var_throw_copy_construct_copy_throws_move_noexcept": 760, "var_throw_copy_construct_copy_throws_move_throws": 760,
+    "var_throw_move_construct_move_throws": 1300,
+    "var_valueless_checked": 1300,
 }
 _T = {k: v * 60 for k, v in _Q.items()}
 
@@ -21,17 +41,25 @@ SPEC = {
     "engine": "E1 model-oracle",
     "technique": ("std counterparts driven in lock-step with the nostd types under ASan+UBSan+LSan: std::string_view, an "
                   "index-checked slice model for span, std::unique_ptr, std::shared_ptr, std::function over std::ref, "
-                  "std::variant; instance-counted payloads per universe"),
+                  "std::variant (incl. alternatives whose copy / move throws on demand, armed identically on both sides); "
+                  "instance-counted payloads per universe"),
     "level_text": ("exploration: every case runs six seeded programs (string_view, span, unique_ptr, shared_ptr, function_ref, "
                    "variant) of up to 100 operations; each operation is applied to the nostd object and to its std "
                    "counterpart and every observable result (values, sign of compare, positions, thrown exception type, "
-                   "handle contents, sharing structure, live-instance count) is compared after every step. Byte strings "
+                   "handle contents, sharing structure, live-instance count) is compared after every step. The variant "
+                   "program ends with 3..10 operations that fail half way (copy / converting / move assignment, emplace, "
+                   "copy / move construction with an alternative whose copy or move constructor throws): the state "
+                   "[variant.assign] fixes after the exception is compared with std::variant, the states it leaves open "
+                   "are counted don't-care. Byte strings "
                    "live in exact-size unterminated heap buffers, payloads are heap objects, so over-reads, double frees "
                    "and leaks are sanitizer reports. Right level because the property quantifies over operation sequences "
                    "of small sequential value types whose reference behaviour is available as the std type itself."),
     "level_note": ("trusts libstdc++'s std types as the oracle and gcc ASan/UBSan/LSan; covers only generated programs "
                    "(pools of views over one base string and its prefixes/variants, positions 0..size+2 and npos, <=8 "
-                   "handles, a 4-alternative variant, no valueless states); calls std leaves undefined are not generated; "
+                   "handles, two 4-alternative variants, valueless states only right after an injected exception: observed, "
+                   "copied, compared, visited, then given a value again; swap is never run with a throw armed); an "
+                   "exception is injected into the first copy (or move) operation of the alternative only, never into "
+                   "allocation; calls std leaves undefined are not generated; "
                    "compile-time differences (function_ref cannot bind a const-qualified functor, operator bool of the "
                    "smart pointers is not explicit, members std offers but nostd does not) are outside a run-time check. "
                    "shared_ptr self-assignment is probed in forked children because a defect there corrupts the heap. "
@@ -41,7 +69,9 @@ SPEC = {
                    "and static); unique_ptr reset without delete, release keeping the pointer, swap no-op, move-assign "
                    "leaking, scalar delete of arrays, != inverted; shared_ptr move copying, move-assign leaking the old "
                    "object, converting move copying, =nullptr no-op, swap dropping a side, from-unique without release; "
-                   "function_ref binding a null function pointer; variant holds_alternative >=, operator< flipped — all caught."),
+                   "function_ref binding a null function pointer; variant holds_alternative >=, operator< flipped — all caught. "
+                   "Seeded change C20-3 (variant copy assignment emplacing in place instead of copy-then-move) is caught as "
+                   "C20/var-assign-throws/copy-throws-move-noexcept:different-alternative."),
     "rule": ("case i = six seeded programs: (1) string_view: 5..100 operations over views of exact-size heap buffers built "
              "from one base string over the alphabet {a,b,NUL,0x7f,0x80,0xff,blank,z} (prefixes, one-byte variations incl. "
              "sign-bit flips, extensions, empty, default view, sub-views produced on the way): size/data/[]/conversion, "
@@ -55,11 +85,30 @@ SPEC = {
              "std::function(std::ref(target)) for functors, lambdas, function pointers, null targets, reference / "
              "move-only / class-type arguments and results; (6) a 4-alternative variant against std::variant: "
              "assignment, emplace, copy, move, swap, get/get_if/holds_alternative (bad_variant_access exactly when std "
-             "throws), visit with one and two variants, relational operators, live count of the counted alternative. "
+             "throws), visit with one and two variants, relational operators, live count of the counted alternative; "
+             "then the exception part over variant<int,string,CopyBomb,MoveBomb> (CopyBomb: copy constructor/assignment "
+             "throw when armed, move noexcept; MoveBomb: copy and move throw when armed; both throw before changing "
+             "anything): 3..10 steps, each armed with probability 3/4, of variant-to-variant copy assignment, converting "
+             "assignment from an lvalue, emplace from an lvalue, copy construction, variant-to-variant move assignment, "
+             "move construction, target holding the same alternative with probability 1/3. After the step: the exception "
+             "left both or neither (var-throw-propagates); index(), valueless_by_exception(), holds_alternative, "
+             "get_if<T>/<I>, the value through get_if and get<index()>, visit (bad_variant_access when valueless) and one "
+             "get<I> of an alternative not held are compared; source unchanged; live counts equal. Judged "
+             "(var-assign-throws/<class>): copy-throws-move-noexcept:different-alternative and convert-copy-throws-move-"
+             "noexcept:different-alternative keep the old value (temporary first, [variant.assign]); every "
+             "same-alternative class keeps index and value (Tj's own assignment, strong guarantee here); "
+             "move-throws:different-alternative holds no value ('the variant will hold no value'); copy/move "
+             "construction (var-construct-throws) leaves source and live count unchanged. Don't-care "
+             "(var_throw_dontcare): emplace, and copy / converting assignment of MoveBomb into another alternative "
+             "('equivalent to emplace', 'might not hold a value'): only 'old value or valueless' is judged. A case is "
+             "not judged when std::variant itself is not where the standard puts it (var_throw_oracle_off_standard, 0 "
+             "observed). A quarter of the valueless variants are also copied, copy-/move-assigned from, compared and "
+             "visited together with a second variant. "
              "Every program is non-trivial; distinct = distinct hash of its operation/argument sequence."),
     "assumptions": ASSUME_COMMON + [
         "libstdc++'s std::string_view / unique_ptr / shared_ptr / function / variant define the expected behaviour; span is judged against an index-checked slice model (C++17 has no std::span)",
         "only the interface nostd offers is exercised (string_view has find(char) only; span has no subspan/first/last, sub-views are built from pointer+count); out-of-contract calls are never generated",
         "moved-from std::string / std::vector alternatives have unspecified values: after a variant move only the index of the source is compared and it is re-assigned at once",
-        "hash: only consistency with equality is judged; agreement with std::hash<std::string_view> is counted, not required"],
+        "hash: only consistency with equality is judged; agreement with std::hash<std::string_view> is counted, not required",
+        "after an exception only the states [variant.assign] / [variant.ctor] fix are judged against std::variant (old value kept where a temporary must be built first or Tj's own assignment runs; no value after a throwing move construction into another alternative); where the standard says the variant 'might not hold a value' (emplace and the assignments equivalent to it) either outcome is accepted and the case is counted don't-care"],
 }
